@@ -508,6 +508,7 @@ Boolean MACRO_Processor(PInputTag PInp, as_dynstr_t* p_dest) {
 
     if ((PInp->LineZ == 1) && (!PInp->GlobalSymbols)) {
         PushLocHandle(GetLocHandle());
+        PInp->First = False;
     }
 
     /* signal the end of the macro */
@@ -777,9 +778,10 @@ static Boolean MACRO_GetPos(PInputTag PInp, char* dest, size_t DestSize) {
 }
 
 static void MACRO_Restorer(PInputTag PInp) {
-    /* discard the local symbol space */
+    /* discard the local symbol space, provided one was opened: an empty body
+       never delivered a line */
 
-    if (!PInp->GlobalSymbols) {
+    if (!PInp->GlobalSymbols && !PInp->First) {
         PopLocHandle();
     }
 
